@@ -1241,3 +1241,50 @@ add("groupIteratorPartitions", "Loader", ["C03"], _LGROUP, "const", [],
     pattern(lambda t: _has(ast.unparse(func(t, "LoaderGroupByIterator.__iter__")),
                            "for key, mole in loader.molecules.with_features(index).groupby(self._by):",
                            "molecules=mole.drop_features(index_col_name)")))
+
+
+# ==========================================================================================
+# C10  scheduling independence: shared cache, declared shapes
+# ==========================================================================================
+_ABASE = "acryo/alignment/_base.py"
+add("backendEqByModule", "Sched", ["C10"], "acryo/backend/_api.py", "const", [],
+    pattern(lambda t: (_has(ast.unparse(func(t, "Backend.__eq__")), "if not isinstance(other, Backend):",
+                            "return NotImplemented", "return self._xp_ is other._xp_")
+                       and _has(ast.unparse(func(t, "Backend.__hash__")), "return hash(self._xp_)"))))
+add("cacheGetProtocol", "Sched", ["C10"], _ABASE, "const", [],
+    pattern(lambda t: (_has(ast.unparse(func(t, "TemplateMaskCache.get")),
+                            "if (out := self._dict.get(backend)):", "return out",
+                            "if (val := next(iter(self._dict.values()), None)):",
+                            "self._dict[backend] = out = (backend.asarray(val[0]), backend.asarray(val[1]))",
+                            "return None")
+                       and _has(ast.unparse(func(t, "TemplateMaskCache.set")), "self._dict[backend] = (template, mask)"))))
+add("cacheFilledAtInit", "Sched", ["C10"], _ABASE, "const", [],
+    pattern(lambda t: _has(ast.unparse(func(t, "BaseAlignmentModel.__init__")),
+                           "self._template_mask_cache = TemplateMaskCache()",
+                           "self._get_template_and_mask_input(Backend())")))
+add("declaredLandscapeShapeFromModel", "Sched", ["C10"], _LBASE, "const", [],
+    pattern(lambda t: _has(ast.unparse(func(t, "LoaderBase.construct_landscape")),
+                           "task_shape = model.landscape(np.zeros(model.input_shape, dtype=np.float32), "
+                           "_max_shifts_px, upsample=upsample).shape",
+                           ".asarrays(shape=task_shape, dtype=np.float32)")))
+add("declaredLoadingShape", "Sched", ["C10"], "acryo/loader/_loader.py", "const", [],
+    pattern(lambda t: _has(ast.unparse(func(t, "SubtomogramLoader.construct_loading_tasks")),
+                           "pool.add_task(subvol, mtx, shape=output_shape, order=self.order, cval=xp.mean)",
+                           "return pool.asarrays(shape=output_shape, dtype=np.float32)")))
+add("landscapePad", "Sched", ["C10", "C07"], _ABASE, "expr", [("_need_upsample", B)],
+    lambda t: assign_rhs(func(t, "BaseAlignmentModel.landscape"), "pad"))
+add("landscapeNeedUpsample", "Sched", ["C10", "C07"], _ABASE, "expr", [("upsample", I)],
+    lambda t: assign_rhs(func(t, "BaseAlignmentModel.landscape"), "_need_upsample"))
+
+
+def _mesh_axis(t):
+    fn = func(t, "_build_mesh")
+    ls = call(fn, "backend.linspace")
+    return ([("width", assign_rhs(fn, "upsampled_max_shifts")),
+             ("c", assign_rhs(fn, "center")),
+             ("lo", ls.args[0]), ("hi", ls.args[1]), ("cnt", ls.args[2])], ["width", "lo", "hi", "cnt"])
+
+
+add("buildMeshAxis", "Sched", ["C10", "C07"], "acryo/backend/_mesh.py", "lets",
+    [("max_shifts", R), ("upsample", I), ("shape", I)], _mesh_axis,
+    subst={"np.asarray(max_shifts)": "max_shifts", "np.array(shape)": "shape"})
